@@ -99,10 +99,18 @@ def run(ck, F):
                       "leaf checks behave as decided by C06"]
     ck.rule("R1", "check first: `req.check_restrictions(None)?` is propagated and its success continuation dominates to_string, "
                   "post, body, basic_auth, send and every await point; the Client-constructing wrapper only delegates")
+    ck.rule("R2", "container delegation: the CheckRestrictions impls of Vec / Option / MultiRef call the check on every value they hold, "
+                  "on every path that returns Ok, and pass the incoming restriction set on")
     ck.rule("R3", "per-member delegation: in every struct/header/envelope template the loop emitting the check calls ranges over "
                   "the same place as the loop emitting the members, unfiltered, and each call is emitted with `?` or returned")
     ck.rule("R4", "facet table: XSD facet name -> model field -> emitted helper field agree for all 8 facets; none crossed or dropped")
     ck.rule("R5", "the incoming `restrictions` parameter reaches the delegated call(s) of every emitted impl")
     ck.rule("R6", "facet literals emitted into Option<i32>/Option<usize> positions are numerically validated")
     rule_check_first(ck, F)
+    # every depth: the containers a member can be wrapped in (Vec, Option, MultiRef) hand the check on to every value they hold,
+    # whatever restriction set they were called with (generated structs call with None): the wrapper obligations of C06, decided here
+    from rules import c04 as C04
+    from rules import c06 as C06
+    sub = C04._Sub(ck, "R2", lambda key: True, only_rules=("R7",))
+    C06.run(sub, F)
     T.c07_template_rules(ck, F)
